@@ -42,7 +42,7 @@ type Case struct {
 	Items    []Item   `json:"items"`
 	EDirs    []string `json:"edirs,omitempty"`    // tree: additional empty directories
 	Src      string   `json:"src,omitempty"`      // tree: source dir relative to the sandbox
-	SrcForm  string   `json:"srcform,omitempty"`  // "", slash, and the unclean spellings dslash, dot, dotmid
+	SrcForm  string   `json:"srcform,omitempty"`  // spelling of srcDir: "", slash, dslash, dot, dotmid, updown (absolute); rel, reldot, relslash, dots3, cwd, cwdslash, parent (relative to a working directory)
 	Suffix   string   `json:"suffix,omitempty"`   // tree: suffix of the by-suffix filter
 	Dest     string   `json:"dest,omitempty"`     // destination relative to the snapshot dir
 	DestForm string   `json:"destform,omitempty"` // "", slash, dslash, dotmid
@@ -343,7 +343,32 @@ func runTree(c *Case, s *hx.Sink, sb string) string {
 	}
 	marker := []byte("sibling marker")
 	e.know(marker)
-	srcArg := spell(srcAbs, c.SrcForm)
+	// spelling of srcDir; the relative ones need a working directory
+	srcArg, cwd := spell(srcAbs, c.SrcForm), ""
+	switch c.SrcForm {
+	case "updown": // through a sibling and back (the sibling exists)
+		must(os.MkdirAll(filepath.Join(filepath.Dir(srcAbs), "sib"), 0o755))
+		srcArg = filepath.Dir(srcAbs) + "/sib/../" + filepath.Base(srcAbs)
+	case "rel":
+		srcArg, cwd = c.Src, sb
+	case "reldot":
+		srcArg, cwd = "./"+c.Src, sb
+	case "relslash":
+		srcArg, cwd = c.Src+"/", sb
+	case "dots3":
+		srcArg, cwd = "./././"+c.Src, sb
+	case "cwd":
+		srcArg, cwd = ".", srcAbs
+	case "cwdslash":
+		srcArg, cwd = "./", srcAbs
+	case "parent": // "../<name>" from a sibling directory
+		must(os.MkdirAll(filepath.Join(filepath.Dir(srcAbs), "sib"), 0o755))
+		srcArg, cwd = "../"+filepath.Base(srcAbs), filepath.Join(filepath.Dir(srcAbs), "sib")
+	}
+	if cwd != "" {
+		must(os.Chdir(cwd))
+		defer os.Chdir(filepath.Dir(sb))
+	}
 	var runs []string
 	k := 0
 	for _, fk := range []string{"nil", "suffix", "none"} {
